@@ -3,7 +3,7 @@
 From Coq Require Import List Arith Bool.
 From PG Require Import Base.ListSet Graph.MGraph C08.Model C09.Model C09.Oracle C09.Spec C09.Proofs C09.Bounded_n3 C09.Bounded_n4 C09.Bounded C09.Refuted C09.Cover C09.Ext
                        C08.Spec C09.Component C09.Whole C09.WholeExample C09.ChordalDefs C09.Chordal_b5 C09.HypsB
-                       C08.Reflect C08.Chordal C08.ChordalOrient C09.ChordalAll.
+                       C08.Reflect C08.Chordal C08.ChordalOrient C09.ChordalAll C08.Proofs C09.Rounds.
 Import ListNotations.
 
 (* unbounded, every mark graph: nodes, adjacencies, arrowheads and tails kept, circles resolved, no circle left *)
@@ -136,3 +136,39 @@ Theorem p2m_component_one_round : forall t, pwf t -> D t = [] -> chordal_g t ->
   let q := orient_all (length (U t)) t in U q = [] /\ acyclic q /\ vfree q.
 Proof. exact component_one_round. Qed.
 Print Assumptions p2m_component_one_round.
+
+(* ---- the loop round by round (C09/Rounds.v) ----
+   meek4_on P : in a PDAG with skeleton in the class P that is closed under R1-R4 and has a v-structure-free consistent
+   extension, every undirected edge can be hand-oriented either way keeping such an extension (Meek 1995 Thm 4 on P) *)
+
+(* rounds_extendable (all rounds) follows from that single graph-theoretic statement *)
+Theorem rounds_extendable_from_meek4 : forall P, skeleton_class P -> meek4_on P ->
+  forall f g, round_inv P g -> rounds_extendable f g.
+Proof. exact rounds_of_meek4. Qed.
+Print Assumptions rounds_extendable_from_meek4.
+
+(* PROVED for all sizes when adjacency is transitive (skeleton = disjoint union of cliques) *)
+Theorem meek4_holds_on_cluster_graphs : meek4_on cluster.
+Proof. exact meek4_cluster. Qed.
+Print Assumptions meek4_holds_on_cluster_graphs.
+
+(* hence the shape clauses with NO hypothesis on the rounds when the circle component is a disjoint union of cliques *)
+Theorem p2m_shape_all_sizes_cluster : forall g, pag_hyps g -> pwf (temp_cpdag g) -> cluster (temp_cpdag g) ->
+  let m := pag_to_mag_model g in
+  acyclic m /\
+  (forall a b, has_b m a b = true -> dpath m a b -> False) /\
+  (forall a c b, arrow_at m a c = true -> arrow_at m b c = true -> a <> b -> adjacent m a b = false ->
+                 arrow_at g a c = true /\ arrow_at g b c = true).
+Proof. exact p2m_shape_cluster. Qed.
+Print Assumptions p2m_shape_all_sizes_cluster.
+
+(* and, for chordal circle components, from the one remaining statement [meek4_on chordal_skel] *)
+Theorem p2m_shape_all_sizes_from_meek4 : forall g, meek4_on chordal_skel ->
+  pag_hyps g -> pwf (temp_cpdag g) -> chordal_g (temp_cpdag g) ->
+  let m := pag_to_mag_model g in
+  acyclic m /\
+  (forall a b, has_b m a b = true -> dpath m a b -> False) /\
+  (forall a c b, arrow_at m a c = true -> arrow_at m b c = true -> a <> b -> adjacent m a b = false ->
+                 arrow_at g a c = true /\ arrow_at g b c = true).
+Proof. exact p2m_shape_meek4. Qed.
+Print Assumptions p2m_shape_all_sizes_from_meek4.
